@@ -4,6 +4,7 @@ import Ndt.Model.Richardson
 import Ndt.Model.Rule
 import Ndt.Model.Fornberg
 import Ndt.Model.FdDerivative
+import Ndt.Model.Dea
 /-! The line-protocol driver: one operation per input line, one output line per input line. -/
 namespace Ndt.Driver
 open Ndt.Proto Ndt.Gen
@@ -31,8 +32,39 @@ def cxStr (z : Cx Rat) : String := s!"{ratStr z.re} {ratStr z.im}"
 def rowsStr {α} (f : α → String) (rows : List (List α)) : String :=
   " | ".intercalate (rows.map (fun r => joinSp (r.map f)))
 
+/-- run `Dea(limexp)` over a sequence; per term `result abserr n nres`, then the final table -/
+def runDea (c : DeaConsts Float) (limexp : Nat) (seq : List Float) : String :=
+  match (deaInit limexp : Option (DeaState Float)) with
+  | none => "ValueError"
+  | some st0 =>
+    let rec go (st : DeaState Float) (seq : List Float) (acc : List String) : List String × DeaState Float :=
+      match seq with
+      | [] => (acc.reverse, st)
+      | sv :: rest =>
+        match deaCall c st sv with
+        | .ok (r, e, st') => go st' rest (s!"{toHex r} {toHex e} {st'.n} {st'.nres}" :: acc)
+        | .error .indexError => (("IndexError" :: acc).reverse, st)
+        | .error .valueError => (("ValueError" :: acc).reverse, st)
+    let (outs, st) := go st0 seq []
+    " | ".intercalate (outs ++ [joinSp (st.epstab.toList.map toHex)])
+
+def runEps (seq : List Float) : String :=
+  let rec go (tab : List Float) (seq : List Float) (acc : List String) : List String × List Float :=
+    match seq with
+    | [] => (acc.reverse, tab)
+    | sv :: rest =>
+      let n := tab.length
+      let tab' := epsStep (1.0e-60 : Float) (1.0e+60 : Float) tab sv
+      go tab' rest (toHex (epsEstimate tab' n) :: acc)
+  let (outs, tab) := go [] seq []
+  joinSp outs ++ " | " ++ joinSp (tab.map toHex)
+
 def handle (w : List String) : String :=
   match w with
+  -- dea limexp eps huge s1 s2 …
+  | "dea" :: limexp :: eps :: huge :: seq =>
+    runDea ⟨fb eps, fb huge, 1.0e-4, 5.0, 6.0⟩ limexp.toNat! (floats seq)
+  | "epsalg" :: seq => runEps (floats seq)
   -- fdw n x0 x…  (Float, bit patterns): fd_weights_all(x, x0, n)
   | "fdw" :: n :: x0 :: xs =>
     match fdWeightsAll (floats xs) (fb x0) n.toNat! with
